@@ -37,6 +37,20 @@ func rollLog(fr *frame, fn *ssa.Function, args []value) (value, bool) {
 	}
 	px.nDraw++
 	px.drawLog = append(px.drawLog, drawRec{recv: src, sym: t})
+	if fr.i.shared != nil {
+		g := src
+		if g == nil {
+			// Roll falls back to the package generator
+			if gv := fr.i.mainPkg.Var("randSource"); gv != nil {
+				if cell, ok := fr.i.globals[gv]; ok {
+					if p, ok := (*cell).(*value); ok {
+						g = p
+					}
+				}
+			}
+		}
+		fr.i.noteSharedWrite(fr, g)
+	}
 	// pin the generator output so that native replay rolls the same face
 	px.assume(px.ar.Eq(t, px.ar.Const(64, uint64(face-1))))
 	return face, true
